@@ -23,6 +23,15 @@ def LfsGenerated (h : HookSpec) (f : Bytes) : Prop :=
 /-- a template is well-behaved when what `write` puts on disk is recognised as current -/
 def WellBehaved (h : HookSpec) : Prop := matchFile limit h (written h) = .current
 
+/-- the implicit hook installation of other commands never forces: every `installHooks(…)` call in
+    package commands passes the literal `false` (the entries end in ":false"), except the one in
+    command_update.go, which hands on `updateForce`, the --force flag of `git lfs update` -/
+theorem implicit_installs_never_force :
+    Gen.installHooksCalls.filter (fun c => !(c.drop (c.length - 6) == [58, 102, 97, 108, 115, 101])) =
+      [[99, 111, 109, 109, 97, 110, 100, 95, 117, 112, 100, 97, 116, 101, 46, 103, 111, 58,   -- command_update.go:
+        117, 112, 100, 97, 116, 101, 70, 111, 114, 99, 101]] := by                             -- updateForce
+  decide
+
 /-! ### facts about the regenerated templates (decided) -/
 set_option maxRecDepth 200000 in
 theorem templates_are_fixpoints : ∀ h ∈ specs, matchFile limit h (written h) = .current := by decide
